@@ -141,7 +141,7 @@ def run(ctx, out):
                 'the result is the deep exactly-typed image (runtime classes at every depth, enum members, instances with converted '
                 'fields, factories called), verdict and value are stable under re-evaluation and under re-spelling of the type; '
                 'accept/reject itself is decided against the Coq model by corr_convert. Non-trivial = non-leaf type.')
-    convprop.run(ctx, out, PROP, monitor, cfg={'weights': {'class': 2.0, 'std': 0.8}})
+    convprop.run(ctx, out, PROP, monitor, twins=True, cfg={'weights': {'class': 2.0, 'std': 0.8}})
 
 
 def replay(rep, out):
